@@ -73,6 +73,40 @@ NEXT Next
 """
 
 
+# decision functions of the call HISTORY: the same key is put to the handler repeatedly (the same path
+# "mr" via R, the same syscall name "symlink" via N, also from different tasks) and the answers differ
+# by occurrence (allow then kill, ban then allow, ...): every assignment of answers to occurrences
+MC_HIST = """CONSTANTS
+  MainAlpha = {"N","R","F","C","W"}
+  ChildAlpha = {"N","R"}
+  MaxMain = %d
+  MaxChild = 1
+  MaxSpawn = 1
+  MaxT = 3
+  MaxTotal = %d
+  EsrchFatal = FALSE
+  ChildSigsysIgnored = FALSE
+  AnyDecision = FALSE
+  ClenPanics = FALSE
+  Noise = %s
+SPECIFICATION Spec
+VIEW MCView
+INVARIANTS TypeOK Enforced TruthfulResult FinishedAllDead NeverRunnerError
+CHECK_DEADLOCK TRUE
+"""
+HIST_GEN = """CONSTANTS
+  MainAlpha = {"N","R","F","C","V","W","T"}
+  ChildAlpha = {"N","R"}
+  MaxMain = 3
+  MaxChild = %d
+  MaxSpawn = 1
+  MaxT = 3
+  MaxTotal = 4
+INIT Init
+NEXT Next
+"""
+
+
 # programs that SIGKILL one of their own child processes while it is being handled (tracer delayed
 # at its verifPoint so that the window is hit); same property machine
 RACE_GEN = """CONSTANTS
@@ -91,7 +125,7 @@ NEXT Next
 def shape(c):
     """coarse class of a case for stratified sampling / violation keys: op kinds per task + decisions"""
     ks = "/".join("".join(o["k"] for o in t) for t in c["script"])
-    ds = "".join(c["dec"][m][0] for m in sorted(c["dec"]))
+    ds = ".".join("".join(d[0] for d in c["dec"][m]) for m in sorted(c["dec"]))
     return ks + ":" + ds
 
 
@@ -111,7 +145,7 @@ def select_quick(ctx, cases, n):
     n = max(0, n - len(out))
     groups = {}
     for c in cases:
-        kinds = frozenset(o["k"] for t in c["script"] for o in t) | frozenset(c["dec"].values())
+        kinds = frozenset(o["k"] for t in c["script"] for o in t) | frozenset(d for p in c["dec"].values() for d in p)
         groups.setdefault(kinds, []).append(c)
     keys = sorted(groups, key=lambda k: sorted(k))
     ctx.rng.shuffle(keys)
@@ -132,7 +166,7 @@ def prep_obs(obs):
     out = []
     for o in obs:
         d = dict(o)
-        d["decl"] = [{"m": m, "d": o["dec"][m]} for m in sorted(o["dec"] or {})]
+        d["decl"] = [{"m": m, "d": list(o["dec"][m])} for m in sorted(o["dec"] or {})]
         d.pop("dec", None)
         d.pop("class", None)
         d["events"] = [e for e in (o.get("events") or []) if e["ev"] != "start"]
@@ -147,6 +181,11 @@ def build_cases(ctx, t):
         raise vlib.Inconclusive("Tracer.tla itself violates %s:\n%s" % (r.invariant or "deadlock-freedom", r.tail(60)))
     ctx.tlc_ok("Tracer MC", r)
     ctx.cov["mc_states"] = r.distinct
+    rh = ctx.tlc("Tracer", cfg=MC_HIST % ((3, 4, "TRUE") if t else (2, 3, "FALSE")), workers=4, timeout=ctx.pick(400, 1500))
+    if rh.invariant or rh.deadlock:
+        raise vlib.Inconclusive("Tracer.tla (decisions by occurrence) violates %s:\n%s" % (rh.invariant or "deadlock-freedom", rh.tail(60)))
+    ctx.tlc_ok("Tracer MC, decisions by occurrence", rh)
+    ctx.cov["mc_states_history"] = rh.distinct
     if t:
         lv = ctx.tlc("Tracer", cfg=MC_LIVE, workers=4, timeout=900)
         ctx.tlc_ok("Tracer liveness (Terminates under fairness)", lv)
@@ -174,11 +213,25 @@ def build_cases(ctx, t):
     rc.sort(key=lambda c: json.dumps(c, sort_keys=True))
     if not t:
         ctx.rng.shuffle(rc)
-        pin = [c for c in rc if kinds_of(c) == "FJT/T" and set(c["dec"].values()) == {"allow"}]
+        pin = [c for c in rc if kinds_of(c) == "FJT/T" and all(d == "allow" for p in c["dec"].values() for d in p)]
         rc = pin + [c for c in rc if c not in pin][:12]
     for c in rc:
         c["delay"] = {"tracer.seccomp": 15}
     cases += rc
+    # history-dependent decision functions
+    hg = ctx.tlc("Tracer_Gen", cfg=HIST_GEN % (2 if t else 1), timeout=900, count=False)
+    ctx.tlc_ok("Tracer_Gen (decisions by occurrence)", hg)
+    hc = [c for c in ctx.read_ndjson(os.path.join(hg.dir, "cases.ndjson"))
+          if isinstance(c["dec"], dict) and any(len(p) > 1 for p in c["dec"].values())]
+    hc.sort(key=lambda c: json.dumps(c, sort_keys=True))
+    total_cases += len(hc)
+    if not t:
+        # every answer sequence for the pinned shapes (one task / across tasks, by path / by name) + a seeded sample
+        pin = [c for c in hc if kinds_of(c) in ("NN", "TT", "FNW/N", "CNW/N")]
+        rest = [c for c in hc if c not in pin]
+        ctx.rng.shuffle(rest)
+        hc = pin + rest[:12]
+    cases += hc
     return cases, total_cases
 
 
@@ -260,6 +313,7 @@ def run(ctx):
         "filter: default kill, explicit allow list for the probe, mkdirat traced (libseccomp Builder)",
     ]
     nontriv = sum(1 for c in cases if c["dec"])
+    ctx.cov["cases_with_history_dependent_decisions"] = sum(1 for c in cases if any(len(set(p)) > 1 for p in c["dec"].values()))
     return dict(evaluations=len(obs), distinct=nontriv,
                 rule="TLC enumerates every script (<=3 tasks, <=2 spawns, <=4 ops, <=2 markers) x decision function; "
                      "quick runs a seeded stratified sample, thorough all of them; non-trivial = has a marker",
